@@ -136,7 +136,7 @@ def simplified(value):
 
 
 def is_quantity(arg):
-    if arg.__class__.__name__ == "Quantity":
+    if arg.__class__.__name__ in ("Quantity", "UncertainQuantity"):
         return True  # this checks works even if quantities is not installed.
     else:
         return False
